@@ -15,8 +15,30 @@ from contextlib import contextmanager
 from pathlib import Path
 
 VERIF = Path(__file__).resolve().parent.parent
-LEAN = VERIF / "lean"
-LOCKDIR = VERIF / ".locks"
+
+
+def _lean_dir() -> Path:
+    """The lake project used by this run.  Checks of a scratch repository (`VERIF_REPO` set to
+    something other than /repo) work on a private rsync'ed copy of /verif/lean, so that regenerated
+    definitions and build products of a mutated tree never mix with those of /repo."""
+    if os.environ.get("VERIF_LEAN_DIR"):
+        return Path(os.environ["VERIF_LEAN_DIR"])
+    repo = os.environ.get("VERIF_REPO")
+    if repo and Path(repo).resolve() != Path("/repo"):
+        import hashlib
+        d = Path("/tmp") / ("verif-lean-" + hashlib.sha1(str(Path(repo).resolve()).encode()).hexdigest()[:10])
+        d.mkdir(exist_ok=True)
+        with open(d.parent / (d.name + ".lock"), "w") as fh:
+            fcntl.flock(fh, fcntl.LOCK_EX)
+            subprocess.run(["rsync", "-a", "--delete", str(VERIF / "lean") + "/", str(d) + "/"], check=True)
+            fcntl.flock(fh, fcntl.LOCK_UN)
+        os.environ["VERIF_LEAN_DIR"] = str(d)
+        return d
+    return VERIF / "lean"
+
+
+LEAN = _lean_dir()
+LOCKDIR = (VERIF / ".locks") if LEAN == VERIF / "lean" else LEAN / ".locks"
 ALLOWED_AXIOMS = {"propext", "Classical.choice", "Quot.sound"}
 FORBIDDEN = re.compile(
     r"\b(sorry|admit|native_decide|bv_decide|implemented_by)\b|^\s*axiom\s|\bunsafe\s|maxHeartbeats\s+0\b"
